@@ -7,12 +7,16 @@ its strict decoder — the "reference codec" on the wire side. `decodedV` is the
 "value in decoded form" (valid per schema, defaults filled, no NaN, distinct set/map keys).
 The *independent schema-driven reference codec* of the property statement lives in the harness
 (Go, sharing no code with thriftrw); it judges the implementation directly on every generated input.
-Partial: invariance of the deserialisers under *permutation* of a reference encoding's struct
-fields / set / map entries is exercised by the harness, not proved; constants are checked by the
-harness against its own cast of the IDL literal (no theorem).
+Partial: invariance of the deserialisers under permutation of a reference encoding's STRUCT
+FIELDS is proved (`field_order_irrelevant`, all three deserialisation paths); invariance under
+permutation of set / map ENTRIES (the result is then equal up to `Equals`, not identical) is
+exercised by the harness, not proved; constants are checked by the harness against its own cast
+of the IDL literal (no theorem).
 -/
 import ThriftVerif.Schema.WtProofs
 import ThriftVerif.Schema.InvalidProofs
+import ThriftVerif.Schema.PermProofs
+import ThriftVerif.Schema.LazyRefine
 
 namespace ThriftVerif.Properties.C01
 open ThriftVerif.Wire ThriftVerif.Schema
@@ -30,6 +34,29 @@ theorem roundtrip_all_paths_partial (env : Env) (hwf : WFEnv env) (hids : WFIds 
     fromWire env fuel t w = .ok g ∧
     decodeS env fuel t (enc w ++ rest) = .ok (g, rest) :=
   roundtrip_all_paths env hwf hids fuel t g w rest hdec htw
+
+/-- A reference encoding may list the fields of a struct in any order: for wire structs whose field
+identifiers are pairwise different, `FromWire` returns the same value for every permutation of the
+fields — and so do the streaming `Decode` and the lazy value path on the permuted encoding. -/
+theorem field_order_irrelevant (env : Env) (fuel : Nat) (n : String)
+    (l1 l2 : List (UInt16 × WValue)) (hp : l1.Perm l2)
+    (hd : l1.Pairwise (fun a b => a.1 ≠ b.1)) (hwt : (WValue.struct l2).wt = true)
+    (g : GVal) (rest : Bytes)
+    (h : fromWire env fuel (.struct n) (.struct l1) = .ok g) :
+    fromWire env fuel (.struct n) (.struct l2) = .ok g ∧
+    decodeS env fuel (.struct n) (enc (.struct l2) ++ rest) = .ok (g, rest) ∧
+    valuePath env fuel (.struct n) (enc (.struct l2) ++ rest) = .ok (g, (rest, 0)) := by
+  have h2 := fromWire_struct_field_order env fuel n hp hd g h
+  have hdec : decode (Ty.struct n).code (enc (.struct l2) ++ rest) = .ok (.struct l2, rest) :=
+    dec_enc (.struct l2) rest _ hwt (size_le_fuelFor _ rest)
+  exact ⟨h2,
+    ThriftVerif.Schema.stream_accepts_what_value_path_accepts env fuel _ (.struct n) _ _ rest g hdec h2,
+    lazy_refines_strict env fuel (.struct n) _ _ rest g hdec h2⟩
+
+/-- Non-vacuity: two fields, swapped. -/
+example : [((1 : UInt16), WValue.i32 5), (2, WValue.bool true)].Perm [(2, WValue.bool true), (1, WValue.i32 5)] ∧
+    [((1 : UInt16), WValue.i32 5), (2, WValue.bool true)].Pairwise (fun a b => a.1 ≠ b.1) :=
+  ⟨List.Perm.swap _ _ _, by decide⟩
 
 /-- What the serialisers emit is well-typed Thrift (every container element has the declared
 element type, every length fits 31 bits) with the declared wire type. -/
